@@ -8,7 +8,7 @@ class C12(Prop):
     pid = "C12"
     check_mod = "C12"
     drivers = [dict(pkg="internal/core", test="TestVerifC12", timeout=600)]
-    n_quick = 64          # histories of 12 edits each (1/8 of them over HTTP)
+    n_quick = 64          # histories of 12 steps each (1/8 of them over HTTP, every second one with file reloads)
     n_thorough = 2000
     shard = 16
     search_factor = 4
@@ -21,9 +21,15 @@ class C12(Prop):
              "rejected edit leaves everything the API reads unchanged (and this is refuted for a clone that shares the "
              "path cells), every read returns the result of all edits answered before it whatever the interleaving of "
              "answers, reloads and reads, and for every edit history the readable configuration and all answers are those "
-             "of a specification on plain finite maps (induction over histories). Validate is an arbitrary oracle. The model "
-             "is tied to the code by running random edit histories against a real Core (direct calls and real HTTP) and "
-             "comparing the configuration read back after every edit inside Coq.",
+             "of a specification on plain finite maps (induction over histories). Reloads of the configuration file "
+             "(the watcher's signal: conf.Load, reloadConf) are part of the histories: after a successful file reload the "
+             "live configuration is the file's whatever the API did before (API edits are not persisted), an edit after it "
+             "starts from the file's configuration, and the history refinement and read-your-write hold with file reloads "
+             "interleaved; a file that does not load, or an accepted edit whose resources cannot be created, makes Core.run "
+             "leave its loop (terminal state; stated as observations). Validate is an arbitrary oracle. The model "
+             "is tied to the code by running random histories against a real Core (direct calls and real HTTP; the file is "
+             "rewritten on disk and the real watcher delivers the signal) and comparing the configuration read back after "
+             "every step inside Coq.",
         note="Trusted: Coq kernel+VM, the in-package driver and its canonicalisation (field = JSON key, value = canonical "
              "JSON text), Conf.Validate as an oracle (its verdict per step is what the real Validate answered; its "
              "normalisations of deprecated alias parameters are excluded from the generators), gin routing and net/http.",
@@ -32,15 +38,23 @@ class C12(Prop):
     rule = ("each case is a history of 12 random edits (global/pathdefaults/add/patch/replace/delete; names from a pool with "
             "existing, missing, regex, alias and invalid names; bodies with 0-4 fields, valid values, values Validate rejects, "
             "undecodable bodies, unknown fields) against a fresh real Core, 1/8 of the histories over the HTTP API; after "
-            "every edit the global fields, path defaults, optional paths and effective paths are read back. Non-trivial = "
-            "a history with at least one accepted and one rejected edit; distinct = distinct history descriptions")
+            "every edit the global fields, path defaults, optional paths and effective paths are read back. Every second "
+            "history also rewrites the configuration file (rename into place; random global parameters, path defaults and "
+            "paths; the file's configuration is computed by an independent conf.Load) at one random position, 1/8 of those "
+            "at two (the second signal is deferred by the watcher for 1 s), waits for the real watcher's signal to be "
+            "handled and reads back; 1/6 of them end with a file that does not load (syntax error, unknown parameter, "
+            "rejected by Validate), 1/8 with an accepted edit whose resources cannot be created (metrics server on a port in "
+            "use). Non-trivial = a history with at least one accepted and one rejected edit; distinct = distinct history "
+            "descriptions")
     trusted_base = ["Coq 8.16.1 kernel + VM (vm_compute for cases)", "in-package Go driver zz_verif_c12_test.go",
                     "oracle: Conf.Validate (verdict shipped per step by the driver)",
-                    "model Model/C12_ApiEdit.v hand-written, tied by correspondence"]
+                    "oracle: conf.Load of the file (the driver loads every generated file itself and ships the result)",
+                    "models Model/C12_ApiEdit.v, Model/C12_FileReload.v hand-written, tied by correspondence"]
     assumptions = ["Conf.Validate does not modify non-deprecated parameters of the candidate (checked on every generated "
                    "edit by the correspondence run; deprecated alias parameters are not generated)",
                    "Core.run handles one configuration request at a time (single goroutine)",
-                   "Clone gives each optional path a fresh cell (C11)"]
+                   "Clone gives each optional path a fresh cell (C11)",
+                   "the watcher delivers a signal after the file was replaced (C38); the driver waits for it (20 s watchdog)"]
 
 
     def run_drivers(self, ctx, n, seed, replay=None):
